@@ -58,6 +58,9 @@ SC_POOL = {
     'i': [3, -2, 5, 2, -3],
     'n': [np.float64(0.5), np.float64(-4.0), np.float64(1.25), np.float64(2.5), np.float64(-0.125)],
     'z': [1 + 2j, -0.5 + 1j, 2 - 1j, 0.25 + 0.5j, -1 - 1j],
+    # neutral elements (the same for every seed): a product with one / a sum with zero is still a new object
+    'u': [1.0],
+    'o': [0.0],
 }
 PROBES = {'a': 101.0, 'b': 102.0, 'c': 103.0}
 _VALS = {}
@@ -388,6 +391,9 @@ def gen_ops(st, cfg, level):
             for o in '+-*/' if full else '*':
                 ops.append(('binS', 'c', x, o, 'f'))
                 ops.append(('rbinS', 'c', 'f', o, x))
+            ops.append(('binS', 'c', x, '*', 'u'))
+            ops.append(('rbinS', 'c', 'u', '*', x))
+            ops.append(('binS', 'c', x, '+', 'o'))
             if full:
                 for s in ('i', 'n', 'z'):
                     for o in '+*':
@@ -405,6 +411,7 @@ def gen_ops(st, cfg, level):
                 ops.append(('binR', 'c', x, '+'))
         else:
             ops.append(('rbinS', 'c', 'f', '*', x))
+            ops.append(('rbinS', 'c', 'u', '*', x))
             if full:
                 ops.append(('rbinS', 'c', 'n', '*', x))
     for x in NAMES:
